@@ -166,4 +166,14 @@ META["C15"] = dict(
         "right socket, and nothing may be left or invented at the end.",
    technique="TLA+ spec (Udp.tla) + TLC exhaustive MC + TLC behaviours replayed into the UDP handler + end-to-end UDP rig + TLC trace validation",
    design_ref="DESIGN.md 3/C15")
+META["C18"] = dict(
+   text="CertReload.tla states when a reload may succeed (the two files hold one complete, matching, unexpired pair) and that a "
+        "failed reload changes nothing; MC_CertReload enumerates every history of 4 file replacements / reloads over 7 x 7 disk "
+        "states (28561) with the invariants ActiveIsValidatedPair, CountsAgree, NeverExpiredWhenChecked. Histories are replayed on "
+        "a real CertReloader with real PEM files (rcgen pairs A, B, expired C; truncations; garbage; missing; a reload landing "
+        "between the two writes of a two-file update is just a history); after every step a fresh TLS handshake whose client "
+        "really verifies the handshake signature tells which leaf is served, and Trace_CertReload.tla compares leaf, reported "
+        "info, reload counter, last-reload time and the liveness of an old session with the model it runs itself.",
+   technique="TLA+ spec (CertReload.tla) + TLC enumeration of all 4-step histories replayed on a real CertReloader + TLC trace validation",
+   design_ref="DESIGN.md 3/C18")
 NOT_YET = "check not built yet in this round (planned: DESIGN.md section 3); not claimed"
